@@ -36,7 +36,7 @@ def build_cases(tier_, rnd):
             continue
         for fname, feat in scenarios.FEATS[:2]:
             for i in ((1, 4, 9, 16) if tier_ == "quick" else range(0, 60, 3)):
-                for errno in ((13, 24) if tier_ == "quick" else (4, 5, 12, 13, 23, 24)):
+                for errno in ((13, 24, 11) if tier_ == "quick" else (4, 5, 11, 12, 13, 23, 24)):
                     cases.append(dict(id="flt|%s|%s|%d|%d" % (sc["name"], fname, i, errno), tree=sc["tree"], feat=feat, trace=True, raw=True, calls=sc["calls"][:3],
                                       faults=[dict(call=rnd.randrange(min(3, len(sc["calls"]))), i=i, errno=errno)], meta=dict(scenario="fault-" + sc["name"], feat=fname)))
     return cases
